@@ -45,7 +45,7 @@ FlagStates ==
 PathStates ==
   { [version |-> v, tree |-> Absent, sdir |-> FALSE, eoie |-> FALSE, entries |-> EntriesOf(p, 1, k)] :
       p \in {LongPaths[i] : i \in 1..4} \cup {PadPaths[i] : i \in 1..5}, v \in PathVersions, k \in {"plain", "skipwt"} }
-  \cup { [version |-> v, tree |-> [present |-> TRUE, root |-> Root(2, TRUE, <<>>)], sdir |-> FALSE, eoie |-> TRUE,
+  \cup { [version |-> v, tree |-> Absent, sdir |-> FALSE, eoie |-> FALSE,
           entries |-> EntriesOf(LongPaths[i], 1, "plain") \o EntriesOf(LongPaths[j], 2, "av")] :
       v \in PathVersions, i \in {1, 2}, j \in {3, 4} }
 \* the version the file has to carry: 3 iff an entry has extended flags (4 is kept for rendering the input)
@@ -92,6 +92,7 @@ InvPadding == st.version # 4 => \A i \in 1..Len(st.entries) : Len(RenderEntry(st
 
 Emit == done =>
   PrintT(<<"CASE", ToJson([input |-> Render(st), input_eoie_pre |-> EoiePre(st), op |-> op,
+                           family |-> Family, state_entries |-> st.entries,
                            in_entries |-> Len(st.entries),
                            outs |-> [o \in WriteOpts |-> [expect |-> Expect(o), eoie_pre |-> EoiePre([Expect(o) EXCEPT !.sdir = FALSE])]]])>>)
 =============================================================================
